@@ -24,6 +24,18 @@ history is replayed with the noise variances 0, 0.25 and 1 and judged by
       history (model pattern k belongs to the k-th smallest condition LABEL, whatever the trial
       order).  The RDM of (1) is compared per labelled pair of conditions, never by position.
 
+  (7) caller-owned state and hidden state.  After EVERY make_dataset / make_signal call the caller's
+      arguments (model incl. its RDMs object, theta, condition vector / design matrix, channel /
+      trial covariances, G) are bit-identical; no array or descriptor dict of a returned dataset
+      overlaps another returned dataset or an argument; a call repeated under the same replayed draw
+      history after other calls is bit-identical (every 16th evaluation, and block S: A, B, A again),
+      and a call whose signal draw has another answer does not return the previous call's signal
+      (use_same_signal shares the signal within a call, never across calls).
+  Scales (block H and the menus of block G): signal 1e-8 / 1e6, noise 1e-10 / 1e6, model RDM x 1e-6 /
+  1e6, labels 100000 + c in non-first-appearance order; the RDM is compared in units of the declared
+  scale (same relative tolerance, no absolute floor), noise terms norm-wise relative, net of 8 ulp
+  of the data whose difference they are.
+
 Inputs outside the preconditions of (1) (fewer channels than conditions, signal channel
 covariance given, non-embeddable model RDM, all points coincident, exact-signal option off) are
 generated, run through (3)-(5), excluded from (1) and counted.
@@ -64,7 +76,12 @@ RULE = ('Configurations = (model RDM, n_channel - n_cond, n_part, (n_sim, use_sa
         'block G: one asymmetric RDM (thorough 3) x 4 '
         '(n_part, n_channel) layouts x design x (n_sim, same) x noise_cov x trial covariance (where '
         'n_obs == n_channel), each draw history replayed at 4 signal strengths x 4 noise variances; '
-        'block E: the RDM of EVERY categorical model (one per set partition of the conditions into >= 2 categories, distance 0 '
+        'block S: sequences of three calls (A, B with '
+        'another signal draw, A again) x offsets x designs x (n_sim, same); block H: signal 1e-8 / 1e6 '
+        'and model RDM x 1e-6 / 1e6 on representatives x offsets x (n_sim, same), every 4th with a '
+        'hand-made condition vector labelled 100000 + c in reversed order; block M: make_signal '
+        'called directly (5 RDMs, 2 also scaled, x n_channel offsets -1, 0, 1, 3 x exact x channel '
+        'factor x 3 menu answers); block E: the RDM of EVERY categorical model (one per set partition of the conditions into >= 2 categories, distance 0 '
         'within / 1 between); block D: make_design for all '
         'n_cond<=6 x n_part<=5. For each configuration EVERY combination of menu answers (3 per '
         'numpy.random.uniform call of the library) is enumerated by prefix replay (states = nodes of '
@@ -102,9 +119,12 @@ BOUNDS = {
                          'exact option off on the representatives',
               'block E': 'categorical RDMs of all set partitions (>= 2 blocks) of 3, 4, 5 conditions = 4 + 14 + 51, '
                          'x 3 n_channel offsets ((n_sim=2, fresh) for every 4th RDM when n_cond=5)',
-              'block G': 'signal menu [0, 0.25, 1, 4] x noise menu [0, 0.25, 1, 2.25] per draw history; 1 RDM x 4 '
-                         'layouts x noise_cov x trial_cov; (n_sim=2, fresh) for half of the layouts',
-              'block F': 'all 2! + 3! + 4! condition orders x 4 partition layouts on 3 asymmetric RDMs',
+              'block G': 'signal menu [0, 1e-8, 0.25, 1, 4, 1e6] x noise menu [0, 1e-10, 0.25, 1, 2.25, 1e6] per draw '
+                         'history (36 real runs); 1 RDM x 4 layouts x noise_cov x trial_cov; without (n_sim=2, '
+                         'fresh signal)',
+              'blocks S, H, M': 'see rule; S 648, H 864 draw histories, M 378 direct make_signal calls',
+              'block F': 'all 2! + 3! + 4! condition orders x 4 partition layouts on 3 asymmetric RDMs; labels c, '
+                         '10 + 3c, 100000 + c',
               'make_design': 'n_cond 1..6 x n_part 1..5'},
     'thorough': {'grid (block A)': 'n_cond 2..5, d<=2: all 90 + 756 + 6642 + 59292 configurations = 6 + 55 + '
                                    '561 + 5671 distinct RDM vectors, each x 3 n_channel offsets x all draw histories',
@@ -121,7 +141,8 @@ BOUNDS = {
                             'covariance / exact option off on the representatives x design',
                  'block E': 'categorical RDMs of all set partitions (>= 2 blocks) of 3..6 conditions = 4 + 14 + 51 '
                             '+ 202, x 3 n_channel offsets',
-                 'block G': 'signal menu [0, 0.25, 1, 4] x noise menu [0, 0.25, 1, 2.25] per draw history; 3 RDMs x '
+                 'blocks S, H, M': 'see rule; S 1134, H 1728 draw histories, M 378 direct make_signal calls',
+                 'block G': 'signal menu [0, 1e-8, 0.25, 1, 4, 1e6] x noise menu [0, 1e-10, 0.25, 1, 2.25, 1e6]; 3 RDMs x '
                             '4 layouts x noise_cov x trial_cov x all (n_sim, same)',
                  'block F': 'all 2! + 3! + 4! + 5! condition orders x 4 partition layouts on 4 asymmetric RDMs',
                  'make_design': 'n_cond 1..6 x n_part 1..5'},
@@ -273,7 +294,8 @@ def shards(tier, seed):
     for r in range(len(NOISE_REPS[tier])):
         for k in range(len(NOISE_LAYOUTS)):
             for ncov in NCOVS:
-                out.append({'block': 'G', 'rep': r, 'layout': k, 'ncov': ncov})
+                for si in range(len(SIMS)):
+                    out.append({'block': 'G', 'rep': r, 'layout': k, 'ncov': ncov, 'sims': si})
     # S: two / three calls in a row (hidden state between calls)
     for off in OFFS:
         for design in DESIGNS:
@@ -341,10 +363,11 @@ def _shard_configs(shard, tier):
         n_part, a, b = NOISE_LAYOUTS[shard['layout']]
         off = a * len(pts) + b
         t = shard['layout'] + 2 * NCOVS.index(shard['ncov']) + shard['rep']
+        t = shard['layout'] + 2 * NCOVS.index(shard['ncov']) + shard['rep'] + shard['sims']
         for tcov in ([False, True] if len(pts) * n_part == len(pts) + off else [False]):
-            for sims in SIMS:
-                if sims == (2, False) and not big and (tcov or shard['layout'] != 0 or shard['ncov'] != 'none'):
-                    continue        # quick: the 81-history option for one layout only
+            for sims in [SIMS[shard['sims']]]:
+                if sims == (2, False) and not big:
+                    continue        # quick: no 81-history option here (36 runs per history)
                 t += 1
                 yield _cfg(v, off, sims=sims, n_part=n_part, signal=1.0, design=DESIGNS[t % 3],
                            ncov=shard['ncov'], tcov=tcov)
@@ -368,7 +391,7 @@ def _shard_configs(shard, tier):
         n = len(pts)
         t = shard['rep'] + k
         for off in OFFS:
-            for sims in SIMS[:3]:
+            for sims in (SIMS[0], SIMS[2]):
                 t += 1
                 sg = signal if signal is not None else SIGNALS[t % 3]
                 scale = rs * (signal if signal is not None else 1.0)
@@ -472,6 +495,7 @@ class _Inputs:
         if cfg['scov']:
             self.scov = np.round(spd(rng_for(seed, 'scov', self.n_channel), self.n_channel), 4)
         self.zero_rdm = not np.any(self.v)
+        self._before = {}
         self.embeddable = ref.embeddable(cfg['v'])
 
     def simulate(self, env, noise, cond_vec=None, signal=None):
@@ -483,7 +507,11 @@ class _Inputs:
                 'signal_cov_channel': None if self.scov is None else self.scov.copy(),
                 'noise_cov_channel': None if self.ncov is None else self.ncov.copy(),
                 'noise_cov_trial': None if self.tcov is None else self.tcov.copy()}
-        before = self._arg_state(args)
+        # the copies handed over are bit-identical to the originals, whose state is taken once
+        key = 'twin' if cond_vec is not None else 'own'
+        before = self._before.get(key)
+        if before is None:
+            before = self._before[key] = self._arg_state(args)
         with rngenv.installed(rng):
             ds = sim.make_dataset(
                 self.model, self.theta, args['cond_vec'], n_channel=self.n_channel,
@@ -707,10 +735,9 @@ def _evaluate_sequence(inp, choices, ctx, case, runs0=None):
     other = list(choices)
     other[0] = (other[0] + 1) % N_MENU
     run_a = _run_guarded(inp, choice.Env(choices), noise)
-    run_b = _run_guarded(inp, choice.Env(other), noise)
-    run_a2 = _run_guarded(inp, choice.Env(choices), noise)
     run_b0 = _run_guarded(inp, choice.Env(other), 0.0)
-    allruns = [r for r in (runs0, run_a, run_b, run_a2, run_b0) if r is not None]
+    run_a2 = _run_guarded(inp, choice.Env(choices), noise)
+    allruns = [r for r in (runs0, run_a, run_b0, run_a2) if r is not None]
     for r in allruns:
         if 'exc' in r:
             with ctx.guard('make_dataset|%s,same=%s,exact=%s' % (sc, cfg['same'], cfg['exact']), case):
@@ -757,9 +784,9 @@ def _evaluate(inp, choices, ctx, case, runs0=None, repeat=None):
     unit = float(cfg.get('scale', 1.0))      # declared scale of signal * RDM (1 except in block H)
     _report_problems(runs.values(), ctx, case)
 
-    # ---- (7) no hidden state between calls: every 8th evaluation repeats the first call (noise 0)
+    # ---- (7) no hidden state between calls: every 16th evaluation repeats the first call (noise 0)
     #      after the others; the data must be bit-identical
-    if repeat if repeat is not None else ctx.evaluations % 8 == 0:
+    if repeat if repeat is not None else ctx.evaluations % 16 == 0:
         again = _run_guarded(inp, choice.Env(choices), 0.0)
         if 'exc' in again or again['calls'] != runs0['calls'] or \
                 fingerprint(_data(again['ds'])) != fingerprint(_data(runs0['ds'])):
